@@ -226,6 +226,56 @@ func (c01) RunCase(c *fw.Ctx, rng *fw.RNG, batch, i int) {
 			buildInto("bindnode.[Any]", "builds_bindnode", c01LstAnyP, false, build.Prog{})
 		}
 	}
+	// One builder, two values: build v, keep the node, Reset, build a second value of the same kind with the
+	// same builder (size hints drawn so that the second often fits the first's capacity). Both nodes must read
+	// back as what was built into them — Reset is one of the legal calls of the builder API (added for
+	// round-3 seed C01-7, a list builder that recycles its backing array across Reset).
+	if i%3 == 1 && (v.K == model.KList || v.K == model.KMap) {
+		for _, rp := range []struct {
+			label string
+			proto datamodel.NodePrototype
+		}{{"basicnode.Any", basicnode.Prototype.Any}, {"basicnode.kind-prototype", kindProto(v)}} {
+			second := mutateLeaf(v, rng)
+			if rng.Bool() {
+				second = model.Gen(rng, model.GenOpts{MaxDepth: 2, MaxWidth: 4})
+				for second.K != v.K {
+					second = mutateLeaf(v, rng)
+				}
+			}
+			nb := rp.proto.NewBuilder()
+			p1, p2 := build.Prog{R: rng.Fork()}, build.Prog{R: rng.Fork()}
+			var e1, e2 error
+			var n1, n2 datamodel.Node
+			if c.Guard("C01:build-reset-build:"+rp.label, func() {
+				if e1 = build.Assemble(nb, v, &p1); e1 != nil {
+					return
+				}
+				n1 = nb.Build()
+				nb.Reset()
+				if e2 = build.Assemble(nb, second, &p2); e2 != nil {
+					return
+				}
+				n2 = nb.Build()
+			}) {
+				continue
+			}
+			lastProg = p1.Trace.String() + " ; Build ; Reset ; " + p2.Trace.String() + " ; Build"
+			if e1 != nil || e2 != nil {
+				c.Deviate("C01:build-error:reset-reuse:"+rp.label, fmt.Sprintf("%s: a legal build/Reset/build program failed: %v / %v\n program: %s", rp.label, e1, e2, lastProg))
+				continue
+			}
+			c.Count("builder_reuse_after_reset", 1)
+			r1 := obs.ReadOut(n1, obs.Options{Light: true})
+			r2 := obs.ReadOut(n2, obs.Options{Light: true})
+			c.Count("readout_events", r1.Events+r2.Events)
+			if !model.Equal(r1.Val, v) {
+				c.Deviate("C01:readback-differs:first-node-after-builder-reuse", fmt.Sprintf("%s: built %s, Reset, built %s with the same builder;\n the FIRST node now reads back as %s\n program: %s", rp.label, v.Dump(), second.Dump(), r1.Val.Dump(), lastProg))
+			}
+			if !model.Equal(r2.Val, second) {
+				c.Deviate("C01:readback-differs:second-node-after-builder-reuse", fmt.Sprintf("%s: built %s, Reset, built %s with the same builder;\n the second node reads back as %s\n program: %s", rp.label, v.Dump(), second.Dump(), r2.Val.Dump(), lastProg))
+			}
+		}
+	}
 	nodes = append(nodes, built{"foreign", fnode.New(v)})
 	if i%8 == 3 {
 		c01Typed(c, rng)
